@@ -12,6 +12,7 @@ perfect matching, and im[e, q] is false for every e in a block and q in a LATER 
 from __future__ import annotations
 
 import itertools
+import os
 from fractions import Fraction
 
 import numpy as np
@@ -20,7 +21,7 @@ import z3
 from symx import sreal as S
 from symx.concolic import explore, model_bools
 from symx.series_tools import load_irispie
-from symx.report import standard_main
+from symx.report import standard_main, Run
 
 PID = "C16"
 
@@ -51,92 +52,161 @@ def _matrix(n, values):
     return im
 
 
-def check_blaze(run, blazer, n, labels, max_paths):
+def _cubes(n):
+    """partition of the input space: n<=2 one cube; n=3 the 8 assignments of the first row; n=4 the 256 assignments of the first two rows (explored in parallel,
+    each with its own incremental solver and its own, much shorter, list of blocking clauses)"""
+    if n <= 2:
+        return [{}]
+    bits = [f"m_{i}_{j}" for i in range(1 if n == 3 else 2) for j in range(n)]
+    return [dict(zip(bits, vals)) for vals in itertools.product((False, True), repeat=len(bits))]
+
+
+def _cube_formulas(cube):
+    return [z3.Bool(k) if v else z3.Not(z3.Bool(k)) for k, v in cube.items()]
+
+
+def _blaze_cube(args):
+    n, labels, cube, max_paths = args
+    from irispie.incidences import blazer
     eids, qids = labels
-    key = f"blaze:n={n}:eids={eids}:qids={qids}"
+    q = {}
+    out = dict(status="ok", paths=0, what="", case=None, q=q, sample=None, solver_s=0.0)
     V = _V(n)
     pm = _perfect_matching(V, range(n), range(n))
     names = _names(n)
+    sub = Run(PID, "worker")
 
     def runner(values):
         im = _matrix(n, values)
         return blazer.blaze(im, eids=eids, qids=qids)
-    init = {nm: (nm.split("_")[1] == nm.split("_")[2]) for nm in names}      # identity matrix
-    results, exhausted = explore([], runner, domain=[pm], init=init, max_paths=max_paths, bool_names=names, stats=run.q, timeout_ms=60000)
-    run.paths += len(results)
+    try:
+        results, exhausted = explore([], runner, domain=[pm] + _cube_formulas(cube), max_paths=max_paths, bool_names=names, stats=sub.q, timeout_ms=60000, init_from_solver=True)
+    except S.SymbolicBranchError as exc:
+        out.update(status="unknown", what=f"symbolic branch: {exc}")
+        return out
+    out["paths"] = len(results)
     if not exhausted:
-        run.unknown(key, f"path enumeration not exhausted after {len(results)} paths (bound {max_paths})")
-        return
+        out.update(status="unknown", what=f"path enumeration not exhausted after {len(results)} paths (bound {max_paths}) in cube {cube}", q=dict(sub.q))
+        return out
     e_index = {e: i for i, e in enumerate(eids or range(n))}
-    q_index = {q: i for i, q in enumerate(qids or range(n))}
+    q_index = {q_: i for i, q_ in enumerate(qids or range(n))}
     for path, blocks, values in results:
         eb, qb = {}, {}
         ok_struct = True
-        for b, blk in enumerate(blocks):
+        for b_, blk in enumerate(blocks):
             ok_struct = ok_struct and len(blk.eids) == len(blk.qids) and len(blk.eids) > 0
             for e in blk.eids:
                 ok_struct = ok_struct and int(e) in e_index and int(e) not in eb
-                eb[int(e)] = b
-            for q in blk.qids:
-                ok_struct = ok_struct and int(q) in q_index and int(q) not in qb
-                qb[int(q)] = b
+                eb[int(e)] = b_
+            for q_ in blk.qids:
+                ok_struct = ok_struct and int(q_) in q_index and int(q_) not in qb
+                qb[int(q_)] = b_
         ok_struct = ok_struct and len(eb) == n and len(qb) == n
         case = dict(kind="blaze", n=n, eids=list(eids) if eids else None, qids=list(qids) if qids else None,
                     matrix=[[bool(values[f"m_{i}_{j}"]) for j in range(n)] for i in range(n)])
         if not ok_struct:
-            run.counterexample(key, "blazer:partition", f"blocks {[(b.eids, b.qids) for b in blocks]} do not partition equations and quantities into square blocks", case)
-            return
+            out.update(status="sat", finding="blazer:partition", case=case,
+                       what=f"blocks {[(b_.eids, b_.qids) for b_ in blocks]} do not partition equations and quantities into square blocks")
+            break
         pc = path.condition()
-        bad_upper = z3.Or(*([V[(e_index[e], q_index[q])] for e in eb for q in qb if qb[q] > eb[e]] + [z3.BoolVal(False)]))
-        bad_match = z3.Or(*[z3.Not(_perfect_matching(V, [e_index[e] for e in blk.eids], [q_index[q] for q in blk.qids])) for blk in blocks])
-        r, mdl = run.check_sat([pm, pc, z3.Or(bad_upper, bad_match)], timeout_ms=60000)
+        bad_upper = z3.Or(*([V[(e_index[e], q_index[q_])] for e in eb for q_ in qb if qb[q_] > eb[e]] + [z3.BoolVal(False)]))
+        bad_match = z3.Or(*[z3.Not(_perfect_matching(V, [e_index[e] for e in blk.eids], [q_index[q_] for q_ in blk.qids])) for blk in blocks])
+        r, mdl = sub.check_sat([pm, pc, z3.Or(bad_upper, bad_match)], timeout_ms=60000)
         if r == "sat":
             mb = model_bools(mdl, names)
             case["matrix"] = [[mb[f"m_{i}_{j}"] for j in range(n)] for i in range(n)]
-            run.counterexample(key, "blazer:block_triangular", "an equation of an earlier block involves a quantity of a later block (or a block has no perfect matching)", case)
-            return
+            out.update(status="sat", finding="blazer:block_triangular", case=case,
+                       what="an equation of an earlier block involves a quantity of a later block (or a block has no perfect matching)")
+            break
         if r != "unsat":
-            run.unknown(key, f"solver {r}")
-            return
-    r0, _ = run.check_sat([pm])
+            out.update(status="unknown", what=f"solver {r}")
+            break
+    if results and out["status"] == "ok":
+        p0, b0, v0 = results[min(1, len(results) - 1)]
+        out["sample"] = {"matrix": [[int(v0[f"m_{i}_{j}"]) for j in range(n)] for i in range(n)], "blocks": [(list(b_.eids), list(b_.qids)) for b_ in b0],
+                         "branch_conditions": len(p0.conds)}
+    out["q"] = dict(sub.q)
+    out["solver_s"] = sub.solver_s
+    return out
+
+
+def _pool_map(fn, jobs):
+    import multiprocessing as mp
+    nproc = min(len(jobs), max(1, min(16, (os.cpu_count() or 2))))
+    if nproc <= 1:
+        return [fn(j) for j in jobs]
+    with mp.get_context("fork").Pool(nproc) as pool:
+        return pool.map(fn, jobs, chunksize=1)
+
+
+def _merge(run, key, outs, finding_default):
+    for o in outs:
+        for k, v in (o.get("q") or {}).items():
+            run.q[k] = run.q.get(k, 0) + v
+        run.solver_s += o.get("solver_s", 0.0)
+        run.paths += o["paths"]
+    for o in outs:
+        if o["status"] == "sat":
+            run.counterexample(key, o.get("finding", finding_default), o["what"], o["case"])
+            return False
+    for o in outs:
+        if o["status"] != "ok":
+            run.unknown(key, o["what"])
+            return False
+    return True
+
+
+def check_blaze(run, blazer, n, labels, max_paths):
+    eids, qids = labels
+    key = f"blaze:n={n}:eids={eids}:qids={qids}"
+    cubes = _cubes(n)
+    outs = _pool_map(_blaze_cube, [(n, labels, c, max_paths) for c in cubes])
+    if not _merge(run, key, outs, "blazer:block_triangular"):
+        return
+    V = _V(n)
+    r0, _ = run.check_sat([_perfect_matching(V, range(n), range(n))])
     if r0 == "sat":
         run.reach_ok += 1
-    if len(run.samples) < 12:
-        p0, b0, v0 = results[min(1, len(results) - 1)]
+    smp = [o["sample"] for o in outs if o.get("sample")]
+    if len(run.samples) < 12 and smp:
         run.samples.append({"obligation": key, "verdict": "all behaviours covered (path conditions block the whole space of matrices with a perfect matching); "
-                            "block-triangularity and matchings unsat-violated on every path", "paths": len(results),
-                            "example_path": {"matrix": [[int(v0[f"m_{i}_{j}"]) for j in range(n)] for i in range(n)], "blocks": [(list(b.eids), list(b.qids)) for b in b0],
-                                             "branch_conditions": len(p0.conds)}})
+                            "block-triangularity and matchings unsat-violated on every path", "paths": sum(o["paths"] for o in outs), "cubes": len(cubes),
+                            "example_path": smp[0]})
     run.ok(key)
 
 
-def check_sequentialize(run, blazer, n, max_paths):
-    """sequentialize_strictly on matrices with a true diagonal (every equation determines its own LHS)"""
-    key = f"sequentialize_strictly:n={n}"
+def _seq_cube(args):
+    n, cube, max_paths = args
+    from irispie.incidences import blazer
+    out = dict(status="ok", paths=0, what="", case=None, q={}, solver_s=0.0)
     V = _V(n)
     diag = z3.And(*[V[(i, i)] for i in range(n)])
     names = _names(n)
+    sub = Run(PID, "worker")
 
     def strict_order_exists():
         alts = []
         for p in itertools.permutations(range(n)):
             conds = []
             for k, e in enumerate(p):
-                for q in range(n):
-                    if q not in p[:k + 1]:
-                        conds.append(z3.Not(V[(e, q)]))
+                for q_ in range(n):
+                    if q_ not in p[:k + 1]:
+                        conds.append(z3.Not(V[(e, q_)]))
             alts.append(z3.And(*conds) if conds else z3.BoolVal(True))
         return z3.Or(*alts)
 
     def runner(values):
         im = _matrix(n, values)
         return blazer.sequentialize_strictly(im)
-    init = {nm: (nm.split("_")[1] == nm.split("_")[2]) for nm in names}
-    results, exhausted = explore([], runner, domain=[diag], init=init, max_paths=max_paths, bool_names=names, stats=run.q, timeout_ms=60000)
-    run.paths += len(results)
+    try:
+        results, exhausted = explore([], runner, domain=[diag] + _cube_formulas(cube), max_paths=max_paths, bool_names=names, stats=sub.q, timeout_ms=60000, init_from_solver=True)
+    except S.SymbolicBranchError as exc:
+        out.update(status="unknown", what=f"symbolic branch: {exc}")
+        return out
+    out["paths"] = len(results)
     if not exhausted:
-        run.unknown(key, f"path enumeration not exhausted after {len(results)} paths")
-        return
+        out.update(status="unknown", what=f"path enumeration not exhausted after {len(results)} paths in cube {cube}", q=dict(sub.q))
+        return out
     exists = strict_order_exists()
     for path, order, values in results:
         order = tuple(int(e) for e in order)
@@ -144,21 +214,32 @@ def check_sequentialize(run, blazer, n, max_paths):
         case = dict(kind="sequentialize", n=n, matrix=[[bool(values[f"m_{i}_{j}"]) for j in range(n)] for i in range(n)])
         if sorted(order) == list(range(n)):
             # a permutation is returned: it must be a valid strict order
-            bad = z3.Or(*([V[(e, q)] for k, e in enumerate(order) for q in range(n) if q not in order[:k + 1]] + [z3.BoolVal(False)]))
-            r, mdl = run.check_sat([diag, pc, bad], timeout_ms=60000)
+            bad = z3.Or(*([V[(e, q_)] for k, e in enumerate(order) for q_ in range(n) if q_ not in order[:k + 1]] + [z3.BoolVal(False)]))
+            r, mdl = sub.check_sat([diag, pc, bad], timeout_ms=60000)
             what = "the returned order uses a left-hand variable before it is determined"
         else:
             # no permutation (Sequential.sequentialize then raises and leaves the model untouched): no strict order may exist
-            r, mdl = run.check_sat([diag, pc, exists], timeout_ms=60000)
+            r, mdl = sub.check_sat([diag, pc, exists], timeout_ms=60000)
             what = "no order is returned although a strictly sequential order exists"
         if r == "sat":
             mb = model_bools(mdl, names)
             case["matrix"] = [[mb[f"m_{i}_{j}"] for j in range(n)] for i in range(n)]
-            run.counterexample(key, "blazer:sequentialize_strictly", what, case)
-            return
+            out.update(status="sat", what=what, case=case, finding="blazer:sequentialize_strictly")
+            break
         if r != "unsat":
-            run.unknown(key, f"solver {r}")
-            return
+            out.update(status="unknown", what=f"solver {r}")
+            break
+    out["q"] = dict(sub.q)
+    out["solver_s"] = sub.solver_s
+    return out
+
+
+def check_sequentialize(run, blazer, n, max_paths):
+    """sequentialize_strictly on matrices with a true diagonal (every equation determines its own LHS)"""
+    key = f"sequentialize_strictly:n={n}"
+    outs = _pool_map(_seq_cube, [(n, c, max_paths) for c in _cubes(n)])
+    if not _merge(run, key, outs, "blazer:sequentialize_strictly"):
+        return
     run.reach_ok += 1
     run.ok(key)
 
